@@ -70,9 +70,9 @@ var plans = map[string]plan{
 	},
 	"C08": {
 		Property: "C08", Level: "exploration",
-		Quick:    []phase{{Scen: "C08", Seeds: 4000, Batch: 125}},
-		Thorough: []phase{{Scen: "C08", Seeds: 300000, Batch: 500}},
-		Rule:     "seeded: 1..3 publishers that keep extending their chains and announcing each new head (bursts of 1..6 direct announcements), explicit SyncAdChain calls for the same publishers in half of the runs, MaxAsyncConcurrency in {unlimited,1,2,#publishers}, IdleHandlerTTL 1h or 20..60s with responses delayed up to 9s, segmented or not; the scheduler interleaves callers, 11 guarded yield points inside the subscriber (a random two thirds of them active per run; lock-wait points always), pending HTTP requests, block-hook calls and clock jumps (only while everybody waits for something external). Invariants after every step: at most one block request pending or hook call in progress per publisher; announce-triggered syncs in progress <= limit. When activity has ceased: latest-sync = last delivered announcement or an error notification for it; every advertisement reported exactly once; hook calls of different syncs do not interleave and are newest-to-oldest. Non-trivial when two actions were simultaneously enabled; distinct = distinct (schedule hash, fault set, canonical log hash)",
+		Quick:    []phase{{Scen: "C08", Seeds: 4000, Batch: 125}, {Scen: "C08D", Seeds: 1500, Batch: 50}},
+		Thorough: []phase{{Scen: "C08", Seeds: 300000, Batch: 500}, {Scen: "C08D", Seeds: 100000, Batch: 250}},
+		Rule:     "seeded: 1..3 publishers that keep extending their chains and announcing each new head (bursts of 1..6 direct announcements), explicit SyncAdChain calls for the same publishers in half of the runs, MaxAsyncConcurrency in {unlimited,1,2,#publishers}, IdleHandlerTTL 1h or 20..60s with responses delayed up to 9s, segmented or not; the scheduler interleaves callers, 11 guarded yield points inside the subscriber (a random two thirds of them active per run; lock-wait points always), pending HTTP requests, block-hook calls and clock jumps (only while everybody waits for something external). Invariants after every step: at most one block request pending or hook call in progress per publisher; announce-triggered syncs in progress <= limit. A second, directed scenario (C08D) first drives one sync of a publisher into its block hook, lets more than twice the idle-handler TTL pass there (slow user code), then starts a second sync of the same publisher before random scheduling takes over. When activity has ceased: latest-sync = last delivered announcement or an error notification for it; every advertisement reported exactly once; hook calls of different syncs do not interleave and are newest-to-oldest. Non-trivial when two actions were simultaneously enabled; distinct = distinct (schedule hash, fault set, canonical log hash)",
 		Real:     []string{"dagsync.Subscriber (watch loop, per-publisher handlers, event distributor, idle-handler cleaner, Close)", "announce.Receiver (direct announcements)", "ipnisync.Sync/Syncer", "ipnisync.Publisher", "chanqueue", "go-ipld-prime traversal", "net/http client transport", "libp2p-HTTP discovery client"},
 		Stubs:    []string{"TCP/TLS (net.Pipe)", "HTTP server loop", "block stores (in-memory)", "wall clock (testing/synctest)", "gossip pubsub (absent: announcements are direct)", "libp2p stream transport (absent)"},
 		Assume:   append([]string{"announced heads advance monotonically per publisher (re-ordered old heads are outside the statement)", "time passes only while every goroutine waits for something external (network, caller think time, block-hook user code, a held lock): computation takes no simulated time"}, commonAssume...),
@@ -142,8 +142,8 @@ var plans = map[string]plan{
 	},
 	"C16": {
 		Property: "C16", Level: "exploration",
-		Quick:    []phase{{Scen: "C16", Enum: true, Seeds: 20000, Batch: 2000}},
-		Thorough: []phase{{Scen: "C16", Enum: true, Seeds: 2000000, Batch: 20000}},
+		Quick:    []phase{{Scen: "C16", Enum: true, Seeds: 20000, Batch: 2000}, {Scen: "C16P", Seeds: 800, Batch: 25}},
+		Thorough: []phase{{Scen: "C16", Enum: true, Seeds: 2000000, Batch: 20000}, {Scen: "C16P", Seeds: 60000, Batch: 100}},
 		Rule:     "enumerated: every sequence of 1..4 (quick) / 1..5 (thorough) calls over {Close, Direct(cidA), Direct(cidB), Next, UncacheCid} assigned to two caller tasks, executed in that global order with blocked calls left pending; seeded: 2..5 tasks, 2..12 calls incl. Direct from a denied peer, scheduler-chosen interleaving at call granularity. A run is non-trivial when at least two calls were simultaneously enabled or pending; distinct = distinct (schedule hash, canonical log hash)",
 		Real:     []string{"announce.Receiver (no pubsub host)", "announce string LRU", "Go channel/select semantics (runtime)"},
 		Stubs:    []string{"pubsub topic (absent: receiver created without a libp2p host)", "wall clock (testing/synctest)"},
